@@ -5,5 +5,5 @@ Extraction Language OCaml.
 Extraction "c13_model.ml"
   Z.add Z.mul Z.opp Z.abs Z.div_eucl Z.sub Z.eqb Z.leb Z.ltb Z.of_nat Z.to_nat
   Base.FILL
-  C13.c13_face_bounds C13.c13_insert C13.c13_empty C13.c13_lon_in
+  C13.c13_face_bounds C13.c13_pole_inside C13.c13_pole_in_face C13.c13_cycle C13.c13_insert C13.c13_empty C13.c13_lon_in
   C14.c14_extreme_spec C14.c14_on_arc.
